@@ -45,12 +45,12 @@ Theorem tvc_spec : forall (ncov : nat) (d : dataset), tvc_impl ncov d = Ok (tvc_
 Proof. exact tvc_spec_lemma. Qed.
 
 (* get_admid (no admid column) = the admid implied by each record's compartment, carried forward from
-   the latest dose event of the subject's block — when no record is a reset-and-dose event (EVID 4;
-   admid_evid4_refuted) and EVID is what NM-TRAN would supply (guard_evid) *)
+   the latest dose event (EVID 1 or 4, fix 1fa817f) of the subject's block — when EVID is what NM-TRAN
+   would supply (guard_evid) *)
 Theorem admid_spec : forall (mi : minfo) (d : dataset) (cmt : list (Z * Z)) (ref : list Z),
   has_admid (ds_sch d) = false ->
   match ds_rows d with r0 :: _ => r_lab r0 = 0 | [] => False end ->
-  guard_evid d = true -> forallb (fun v => negb (v =? 4)) (evid_walk d) = true ->
+  guard_evid d = true ->
   cmt_impl mi d = Ok cmt -> admid_ref mi d = Ok ref ->
   admid_impl mi d = Ok (combine (map fst cmt) ref).
 Proof. exact admid_spec_lemma. Qed.
@@ -89,9 +89,9 @@ Theorem expand_noop : forall d : dataset,
 Proof. exact expand_noop_lemma. Qed.
 
 (* the original records are the records not flagged EXPANDED, in their original order and with all
-   their fields (up to the new index labels) — when the index is the default one, the individuals are
-   in ascending id order and each (individual, reset group) is chronological (guard_expand_order;
-   expand_order_refuted shows the reordering for descending ids) *)
+   their fields (up to the new index labels) — for any index of the dataset (fix 96db805), when the
+   individuals are in ascending id order and each (individual, reset group) is chronological
+   (guard_expand_order; expand_order_refuted shows the reordering for descending ids) *)
 Theorem expand_keeps_originals : forall (d : dataset) (l : list (row * bool)),
   guard_expand_order d = true -> expand_impl d = Ok l ->
   map (fun p : row * bool => set_lab (fst p) 0) (filter (fun p => negb (snd p)) l)
@@ -111,26 +111,25 @@ Theorem tad_nonneg : forall (d : dataset) (out : list (row * Z)),
 Proof. exact tad_nonneg_lemma. Qed.
 
 (* adding the TAD column keeps the frame: the records of the result are the unexpanded records of the
-   working frame, in order, all fields unchanged — when the ids ascend and no DOSEID is out of order
-   within an individual (guard_tad_frame) ... *)
-Theorem tad_frame_kept : forall d : dataset, guard_tad_frame d = true ->
-  exists fr out, tad_frame d = Ok fr /\ tad_impl d = Ok out
+   working frame, in order, all fields unchanged — for EVERY dataset on which the function returns
+   (since fix 8de2b00 the frame is sorted back by the remembered position; guard_tad_frame is gone) ... *)
+Theorem tad_frame_kept : forall (d : dataset) (out : list (row * Z)), tad_impl d = Ok out ->
+  exists fr, tad_frame d = Ok fr
     /\ map (fun p : row * Z => set_lab (fst p) 0) out
        = map (fun p : row * bool => set_lab (fst p) 0) (filter (fun p => negb (snd p)) fr).
 Proof. exact tad_frame_kept_lemma. Qed.
 
-(* ... which are the records of the input dataset *)
-Theorem add_column_frame : forall d : dataset, guard_tad_frame d = true ->
+(* ... which are the records of the input dataset (with ADDL: when the expansion keeps them in order) *)
+Theorem add_column_frame : forall (d : dataset) (out : list (row * Z)), tad_impl d = Ok out ->
   has_addl (ds_sch d) = false \/ guard_expand_order d = true ->
-  exists out, tad_impl d = Ok out
-    /\ map (fun p : row * Z => set_lab (fst p) 0) out = map (fun r => set_lab r 0) (ds_rows d).
+  map (fun p : row * Z => set_lab (fst p) 0) out = map (fun r => set_lab r 0) (ds_rows d).
 Proof. exact add_column_frame_lemma. Qed.
 
 (* add_time_after_dose = the per-individual walk (time since the latest dose record; before the first
    dose, since the individual's first record) for datasets without an ADDL column, when get_doseid
-   refines its walk and no DOSEID is out of order (no observation counted towards the preceding dose —
-   those are moved by the function, tad_reorder_tie_refuted).  With ADDL the walk would have to
-   generate the implicit doses; there the statement is checked by the oracle only. *)
+   refines its walk and no DOSEID is out of order (guard_tad_frame: no observation counted towards the
+   preceding dose; for those the statement is checked by the oracle only — Refuted.tad_reorder_tie_fixed
+   is an instance).  With ADDL the walk would have to generate the implicit doses (oracle only). *)
 Theorem tad_refines : forall d : dataset,
   has_addl (ds_sch d) = false -> guard_doseid d = true -> guard_tad_frame d = true ->
   exists out, tad_impl d = Ok out /\ map snd out = tad_walk d.
